@@ -162,11 +162,15 @@ def _inputs(T, S, policy):
     return f
 
 
-def o_policy(rep, policy, T, S):
+def o_policy(rep, policy, T, S, pin=None):
+    """pin: a visibility pattern of the first row fixed for this obligation (the 2^S patterns are shared out over 2^S obligations)."""
     from resonaate.tasking.decisions import decisions as D
 
     def run():
         R, V = reals("R", T, S), bools("V", T, S)
+        if pin is not None:
+            from symx.core import assume
+            assume(*[(V[0, j].t if b else z3.Not(V[0, j].t)) for j, b in enumerate(pin)])
         if policy == "greedy":
             dec = D.MyopicNaiveGreedyDecision()
         elif policy == "munkres":
@@ -391,6 +395,15 @@ def obligations(tier):
     for pol in ("greedy", "allvisible", "random", "munkres"):
         extra = big if pol in ("greedy", "allvisible") else ([(4, 2), (2, 4)] if pol == "random" and tier == "thorough" else ([(3, 4), (4, 3)] if tier == "thorough" else []))
         for (T, S) in shapes + extra:
+            if T * S >= 9 and pol in ("random", "allvisible", "munkres"):
+                # many paths: one obligation per visibility pattern of the first row (together: all matrices)
+                import itertools
+
+                for pat in itertools.product((False, True), repeat=S):
+                    name = f"{pol}-{T}x{S}-row0-" + "".join("1" if b else "0" for b in pat)
+                    obs.append(Ob(name, (lambda a: lambda rep: o_policy(rep, *a))((pol, T, S, pat)), f"{pol} policy on all {T}x{S} matrices whose first visibility row is {pat}", 900))
+                    REPLAYS[name] = replay_decision
+                continue
             name = f"{pol}-{T}x{S}"
             obs.append(Ob(name, (lambda a: lambda rep: o_policy(rep, *a))((pol, T, S)), f"{pol} policy on all {T}x{S} matrices", 900))
             REPLAYS[name] = replay_decision
